@@ -16,7 +16,7 @@ class C16(C05):
             "or missing a database property at the first, middle or last position; set_prop / update_props with one column "
             "of the wrong length at any position; concat of incompatible databases (kind, bits, level, property set) in "
             "either order; get_subset with an absent name. After each refused operation every component of every database "
-            "involved (rows, names, name index incl. empty entries, properties) must equal its dump before the call. "
+            "involved (rows, names, name index incl. empty entries, properties) must equal its dump before the call; batches of 20 000 - 262 200 with one offender. "
             "Non-trivial: history with at least one refused operation on a non-empty database; distinct by history.")
 
     def gen_zero_cases(self):
